@@ -169,6 +169,12 @@ static inline void spec_sha512_compress(uint64_t H[8], const unsigned char M[128
      (unsigned __int128)(pos) < SPEC_PAD_TOTAL(len, block, lenfield) - (lenfield) ? (unsigned char)0 : \
      SPEC_PAD_LENBYTE(len, SPEC_PAD_TOTAL(len, block, lenfield), (unsigned __int128)(pos)))
 
+/* the same with the padded length `total` (= SPEC_PAD_TOTAL(len, block, lenfield)) computed once by the caller */
+#define SPEC_PAD_BYTE_T(msg, len, total, lenfield, pos) \
+    ((unsigned __int128)(pos) < (unsigned __int128)(len) ? (unsigned char)(msg)[pos] : \
+     (unsigned __int128)(pos) == (unsigned __int128)(len) ? (unsigned char)0x80 : \
+     (unsigned __int128)(pos) < (unsigned __int128)(total) - (lenfield) ? (unsigned char)0 : \
+     SPEC_PAD_LENBYTE(len, (unsigned __int128)(total), (unsigned __int128)(pos)))
 /* byte at absolute position pos >= len of the padded message (the padding itself; needs no message bytes) */
 #define SPEC_PAD_TAIL_BYTE(len, block, lenfield, pos) \
     ((unsigned __int128)(pos) == (unsigned __int128)(len) ? (unsigned char)0x80 : \
